@@ -490,14 +490,14 @@ func scenarios(thorough bool) []*scenario {
 // cmdUgo runs bin/vsched-cmd: package main of github.com/ozanh/ugo/cmd/ugo built with the scheduler overlay, its
 // main() replaced by a harness (shim/cmdharness) that explores executeScript - "run a script under a context" as the
 // ugo command does it - against a cancelling thread and prints one JSON line per scenario.
-func cmdUgo(c *fw.Ctx, bound int) {
+func cmdUgo(c *fw.Ctx, bound, script int) {
 	exe, err := os.Executable()
 	if err != nil {
 		c.Infra("cmd-ugo: %v", err)
 		return
 	}
 	bin := filepath.Join(filepath.Dir(exe), "vsched-cmd")
-	cmd := exec.Command(bin, fmt.Sprint(bound))
+	cmd := exec.Command(bin, fmt.Sprint(bound), fmt.Sprint(script))
 	cmd.Env = append(os.Environ(), "GOMAXPROCS=1")
 	var so, se strings.Builder
 	cmd.Stdout, cmd.Stderr = &so, &se
@@ -816,10 +816,12 @@ func run09(c *fw.Ctx) {
 		cb = 3
 	}
 	c.Family("cmd-ugo", fmt.Sprintf("executeScript of cmd/ugo (package main, built with the scheduler overlay) x 4 scripts || cancel: all schedules with <= %d preemptions", cb))
-	if c.Next() && !c.Skip("cmd/ugo executeScript") {
-		c.Mark("cmd/ugo executeScript")
-		c.Nontrivial()
-		cmdUgo(c, cb)
+	for si := 0; si < 4; si++ {
+		if c.Next() && !c.Skip("cmd/ugo executeScript") {
+			c.Mark(fmt.Sprintf("cmd/ugo executeScript script %d", si))
+			c.Nontrivial()
+			cmdUgo(c, cb, si)
+		}
 	}
 }
 
